@@ -8,6 +8,7 @@ import (
 	"io"
 	"net"
 	"os"
+	"strconv"
 	"strings"
 	"sync"
 	"sync/atomic"
@@ -358,6 +359,108 @@ func pump(src, dst *bufpipe.Conn, dir int, ed *relayEdit, st *relayStats, stop *
 	}
 }
 
+
+// adAlternatives: plausible other values for attributes of the cleartext negotiation / resumption ads
+// (ClassAd source text). The honest value itself is skipped where it occurs.
+var adAlternatives = map[string][]string{
+	"RemoteVersion": {
+		`"$CondorVersion: 9.0.0 2021-04-14 BuildID: 536147 PackageID: 9.0.0-1 $"`, // older than every feature gate
+		`"$CondorVersion: 8.8.17 2022-03-15 BuildID: 578027 $"`,
+		`"$CondorVersion: 9.0.1 2021-05-17 BuildID: 540462 $"`,
+		`"$CondorVersion: 10.0.9 2023-09-28 BuildID: 678228 $"`,
+		`"$CondorVersion: 99.1.0 2031-01-01 BuildID: 999999 $"`, // newer
+		`"not a version"`, `""`,
+	},
+	"CryptoMethods":       {`"AES,3DES"`, `"3DES,AES"`, `"BLOWFISH,AES"`, `"3DES"`, `""`},
+	"CryptoMethodsList":   {`"AES,3DES"`, `"3DES,AES"`, `"BLOWFISH"`},
+	"AuthMethods":         {`"CLAIMTOBE,FS"`, `"FS,CLAIMTOBE"`, `"CLAIMTOBE,TOKEN"`, `"TOKEN,CLAIMTOBE"`, `"CLAIMTOBE"`, `"FS"`, `"TOKEN"`, `"NONE"`},
+	"AuthMethodsList":     {`"CLAIMTOBE,FS"`, `"FS,CLAIMTOBE"`, `"TOKEN,CLAIMTOBE"`, `"CLAIMTOBE"`},
+	"Encryption":          {`"REQUIRED"`, `"PREFERRED"`, `"OPTIONAL"`, `"NEVER"`, `"YES"`, `"NO"`},
+	"Authentication":      {`"REQUIRED"`, `"PREFERRED"`, `"OPTIONAL"`, `"NEVER"`, `"YES"`, `"NO"`},
+	"Integrity":           {`"REQUIRED"`, `"OPTIONAL"`, `"NEVER"`, `"YES"`, `"NO"`},
+	"Enact":               {`"YES"`, `"NO"`},
+	"NewSession":          {`"YES"`, `"NO"`},
+	"UseSession":          {`"YES"`, `"NO"`},
+	"ResumeResponse":      {"true", "false"},
+	"NegotiatedSession":   {"true", "false"},
+	"OutgoingNegotiation": {`"REQUIRED"`, `"PREFERRED"`, `"OPTIONAL"`, `"NEVER"`},
+	"ReturnCode":          {`"AUTHORIZED"`, `"DENIED"`, `"SID_NOT_FOUND"`, `""`},
+	"SessionDuration":     {"1", "86400", "0"},
+	"SessionLease":        {"1", "3600"},
+}
+
+// altValues: the catalogue's values for attr plus generic neighbours of the honest value (a list in
+// reverse order, a string with one more character or another first letter, a number one higher, a
+// boolean negated), the honest value excluded.
+func altValues(attr, honest string) []string {
+	out := append([]string{}, adAlternatives[attr]...)
+	if len(honest) >= 2 && honest[0] == '"' && honest[len(honest)-1] == '"' {
+		in := honest[1 : len(honest)-1]
+		if strings.Contains(in, ",") {
+			l := strings.Split(in, ",")
+			for i, j := 0, len(l)-1; i < j; i, j = i+1, j-1 {
+				l[i], l[j] = l[j], l[i]
+			}
+			out = append(out, `"`+strings.Join(l, ",")+`"`)
+		}
+		out = append(out, `"`+in+`x"`)
+		if in != "" {
+			b := []byte(in)
+			b[0] ^= 0x20
+			if b[0] >= 0x21 && b[0] < 0x7f && b[0] != '"' && b[0] != '\\' {
+				out = append(out, `"`+string(b)+`"`)
+			}
+		}
+	} else if honest == "true" || honest == "false" {
+		out = append(out, map[string]string{"true": "false", "false": "true"}[honest])
+	} else if v, err := strconv.ParseInt(honest, 10, 64); err == nil {
+		out = append(out, fmt.Sprint(v+1))
+	}
+	var uniq []string
+	seen := map[string]bool{honest: true}
+	for _, v := range out {
+		if !seen[v] {
+			seen[v] = true
+			uniq = append(uniq, v)
+		}
+	}
+	return uniq
+}
+
+// rewriteEdits: the semantic edits of the two ads seen in the honest run: every attribute x every
+// alternative value, in the direction that carries it -- and, for attributes both ads carry, in both
+// directions at once (the same value put into both).
+func rewriteEdits(c *Ctx, st *relayStats) (edits []relayEdit) {
+	st.mu.Lock()
+	defer st.mu.Unlock()
+	var vals [2]map[string]string
+	var names [2][]string
+	for d := 0; d < 2; d++ {
+		if len(st.raw[d]) == 0 {
+			return nil
+		}
+		names[d], vals[d] = adAttrs(st.raw[d][0][5:], d)
+	}
+	for d := 0; d < 2; d++ {
+		for _, a := range names[d] {
+			if a == "MyType" || a == "TargetType" {
+				continue
+			}
+			alts := altValues(a, vals[d][a])
+			if a == "ECDHPublicKey" && !c.Thorough() {
+				alts = alts[:1]
+			}
+			for _, v := range alts {
+				edits = append(edits, relayEdit{dir: d, frame: 0, kind: "rewrite", attr: a, newVal: v})
+				if _, inOther := vals[1-d][a]; inOther && d == 0 && v != vals[1][a] {
+					edits = append(edits, relayEdit{dir: 0, frame: 0, kind: "rewrite", attr: a, newVal: v, both: true})
+				}
+			}
+		}
+	}
+	return
+}
+
 var relayPanics atomic.Int64 // panics inside the library while a tampered handshake ran (a C13 matter; counted in the notes)
 
 type relayShape struct {
@@ -595,7 +698,7 @@ func relayShapes(hm *hsMaterial) []relayShape {
 }
 
 func runRelay(c *Ctx) error {
-	c.Res.Rule = "part 1 (stream level, compared with the model): 1-4 cleartext frames in either direction each edited in transit (payload bit flip, end flag flipped or rewritten to another accepted value 2..10, empty frame inserted before/after, frame dropped, split in two, two adjacent frames merged into one, byte appended), then keys installed and one protected message each way; part 2 (whole handshakes through a byte-editing relay, property oracle): shapes {no authentication, CLAIMTOBE, TOKEN, FS, resumed session (checked to have resumed)} x every frame of the handshake in each direction x (every byte offset x xor 0x01/0x80 in thorough, every 3rd-6th offset in quick; the end-flag byte also rewritten to 2, 3 and 10) plus empty-frame insertion, frame removal, frame splitting and merging of every pair of adjacent cleartext frames of a direction; edits that could not be run are counted and bounded; distinct by (shape, edit); non-trivial = the edit lands in a frame exchanged before the application data"
+	c.Res.Rule = "part 1 (stream level, compared with the model): 1-4 cleartext frames in either direction each edited in transit (payload bit flip, end flag flipped or rewritten to another accepted value 2..10, empty frame inserted before/after, frame dropped, split in two, two adjacent frames merged into one, byte appended), then keys installed and one protected message each way; part 2 (whole handshakes through a byte-editing relay, property oracle): shapes {no authentication, CLAIMTOBE, TOKEN, FS, resumed session (checked to have resumed), FS-fails-then-CLAIMTOBE, bad-TOKEN-then-CLAIMTOBE (checked on the wire)} x every frame of the handshake in each direction x (every byte offset x xor 0x01/0x80 in thorough, every 3rd-6th offset in quick; the end-flag byte also rewritten to 2, 3 and 10) plus empty-frame insertion, frame removal, frame splitting and merging of every pair of adjacent cleartext frames of a direction; two further shapes in which the FIRST method runs and fails on the wire (FS through an address translator, TOKEN signed by a foreign key) before CLAIMTOBE completes, every frame of the abandoned exchange edited too; SEMANTIC edits of the two cleartext ads: every attribute present x a catalogue of plausible other values (RemoteVersion older / newer / unparsable, method and cipher lists extended / reordered, levels and YES/NO swapped, booleans, numbers, generic neighbours of the honest value), the ad re-framed, in one direction and -- for attributes both ads carry -- in both at once; edits that could not be run are counted and bounded; distinct by (shape, edit); non-trivial = the edit lands in a frame exchanged before the application data"
 	defer quietStdout()()
 	var cases []Case
 	n := c.Pick(600, 8000)
@@ -720,9 +823,11 @@ func runRelay(c *Ctx) error {
 				c.Count("shape:" + sh.name + ":adjacent-pair")
 			}
 		}
+		// semantic edits of the cleartext ads (first frame of each direction)
+		edits = append(edits, rewriteEdits(c, st)...)
 		// run the edits: fresh handshakes are independent of each other (own cache, own pipes) and run
 		// eight at a time; resumed ones share the process-wide cache and run one by one
-		type editRes struct{ ran, hs, app, applied, timedOut, stalled bool }
+		type editRes struct{ ran, hs, app, applied, timedOut, stalled, enc bool }
 		results := make([]editRes, len(edits))
 		if sh.resumed {
 			for i := range edits {
@@ -731,7 +836,7 @@ func runRelay(c *Ctx) error {
 				}
 				e := edits[i]
 				ro := relayRun(sh, cache, &e)
-				results[i] = editRes{true, ro.hsOK, ro.appOK, ro.applied(), ro.timedOut, ro.stalled}
+				results[i] = editRes{true, ro.hsOK, ro.appOK, ro.applied(), ro.timedOut, ro.stalled, ro.enc}
 			}
 		} else {
 			sem := make(chan struct{}, 8)
@@ -744,7 +849,7 @@ func runRelay(c *Ctx) error {
 					defer func() { <-sem }()
 					e := edits[i]
 					ro := relayRun(sh, security.NewSessionCache(), &e)
-					results[i] = editRes{true, ro.hsOK, ro.appOK, ro.applied(), ro.timedOut, ro.stalled}
+					results[i] = editRes{true, ro.hsOK, ro.appOK, ro.applied(), ro.timedOut, ro.stalled, ro.enc}
 				}(i)
 			}
 			wg.Wait()
@@ -764,7 +869,7 @@ func runRelay(c *Ctx) error {
 				rc = security.NewSessionCache()
 			}
 			ro := relayRunBound(sh, rc, &e, relayRetryTimeout)
-			results[i] = editRes{true, ro.hsOK, ro.appOK, ro.applied(), ro.timedOut, ro.stalled}
+			results[i] = editRes{true, ro.hsOK, ro.appOK, ro.applied(), ro.timedOut, ro.stalled, ro.enc}
 		}
 		for i, ed := range edits {
 			planned++
@@ -793,6 +898,24 @@ func runRelay(c *Ctx) error {
 			}
 			c.Distinct(fmt.Sprintf("%s|%+v", sh.name, ed), true)
 			c.Count("shape:" + sh.name + ":" + ed.kind)
+			if ed.kind == "rewrite" {
+				dirs := fmt.Sprintf("dir%d", ed.dir)
+				if ed.both {
+					dirs = "both"
+				}
+				c.Count("rewrite:" + dirs)
+				c.Count("rewrite-attr:" + ed.attr)
+				switch {
+				case hs && app && results[i].enc:
+					c.Violate(Violation{Property: "C04", Key: fmt.Sprintf("C04:handshake:%s:rewrite:%s:%s", sh.name, ed.attr, dirs), What: "the value of an attribute of a cleartext negotiation ad was rewritten in transit (the ad re-framed), the handshake ended with encryption on, and application data was accepted afterwards",
+						Ops: []string{"shape " + sh.name, fmt.Sprintf("rewrite %s := %s in %s", ed.attr, ed.newVal, dirs)}, Expected: "handshake fails or the first protected frame is rejected", Observed: "application message delivered over the keyed stream"})
+				case hs && app:
+					// the rewrite talked both ends out of a key: no protected frame exists; whether that may
+					// happen is a matter of the policies (C03/C10), not of the transcript binding
+					c.Count("rewrite-ended-in-plaintext:" + ed.attr)
+				}
+				continue
+			}
 			if hs && app {
 				c.Violate(Violation{Property: "C04", Key: fmt.Sprintf("C04:handshake:%s:%s:dir%d", sh.name, ed.kind, ed.dir), What: "a byte of the handshake transcript was modified / a frame inserted, removed, split or merged in transit, yet application data was accepted afterwards",
 					Ops: []string{"shape " + sh.name, fmt.Sprintf("edit %+v", ed)}, Expected: "handshake fails or the first protected frame is rejected", Observed: "application message delivered"})
